@@ -237,7 +237,8 @@ def boundary_cases(rng, tier, per_cap=2, op='encode'):
     with and without an FNC1 start (which shifts the parity of the codewords before the run)."""
     cs = []
     seen = set()
-    tails = {'digit1': [52], 'digit2': [52, 50], 'digit3': [52, 50, 51], 'upper': [65], 'lower': [97, 98], 'high': [200], 'punct': [33]}
+    tails = {'digit1': [52], 'digit2': [52, 50], 'digit3': [52, 50, 51], 'upper': [65], 'lower': [97, 98], 'high': [200], 'punct': [33],
+             'brace': [123], 'tilde': [126], 'shift3x2': [125, 124], 'del': [127], 'ctrl': [29]}
     for c in sorted(set(caps())):
         small = c <= 62
         if c > 120 and tier == 'quick' and rng.chance(2, 3):
@@ -253,7 +254,7 @@ def boundary_cases(rng, tier, per_cap=2, op='encode'):
                 seen.add((kind, L))
                 variants = [None]
                 if small:
-                    variants += list(tails) if tier != 'quick' else [rng.choice(sorted(tails)), rng.choice(sorted(tails))]
+                    variants += list(tails) if tier != 'quick' else [rng.choice(sorted(tails)), rng.choice(sorted(tails)), rng.choice(sorted(tails))]
                 elif rng.chance(1, 3) and L > 4:
                     variants = ['mixed']
                 for v in variants:
